@@ -93,12 +93,12 @@ RE_WIN_DRIVE_MAGIC = (
     re.compile(br'([{}|]|(?<!\\)(?:(?:[\\]{2})*)\\(?!\\))')
 )
 RE_NO_DIR = (
-    re.compile(r'^(?:.*?(?:/\.{1,2}/*|/)|\.{1,2}/*)$'),
-    re.compile(br'^(?:.*?(?:/\.{1,2}/*|/)|\.{1,2}/*)$')
+    re.compile(r'^(?s:.*?(?:/\.{1,2}/*|/)|\.{1,2}/*)$'),
+    re.compile(br'^(?s:.*?(?:/\.{1,2}/*|/)|\.{1,2}/*)$')
 )
 RE_WIN_NO_DIR = (
-    re.compile(r'^(?:.*?(?:[\\/]\.{1,2}[\\/]*|[\\/])|\.{1,2}[\\/]*)$'),
-    re.compile(br'^(?:.*?(?:[\\/]\.{1,2}[\\/]*|[\\/])|\.{1,2}[\\/]*)$')
+    re.compile(r'^(?s:.*?(?:[\\/]\.{1,2}[\\/]*|[\\/])|\.{1,2}[\\/]*)$'),
+    re.compile(br'^(?s:.*?(?:[\\/]\.{1,2}[\\/]*|[\\/])|\.{1,2}[\\/]*)$')
 )
 RE_TILDE = (
     re.compile(r'~[^/]*(?=/|$)'),
@@ -254,12 +254,12 @@ _NO_ROOT = r'(?!/)'
 _NO_WIN_ROOT = r'(?!(?:[\\/]|[a-zA-Z]:))'
 # Restrict directories
 _NO_NIX_DIR = (
-    r'^(?:.*?(?:/\.{1,2}/*|/)|\.{1,2}/*)$',
-    rb'^(?:.*?(?:/\.{1,2}/*|/)|\.{1,2}/*)$'
+    r'^(?s:.*?(?:/\.{1,2}/*|/)|\.{1,2}/*)$',
+    rb'^(?s:.*?(?:/\.{1,2}/*|/)|\.{1,2}/*)$'
 )
 _NO_WIN_DIR = (
-    r'^(?:.*?(?:[\\/]\.{1,2}[\\/]*|[\\/])|\.{1,2}[\\/]*)$',
-    rb'^(?:.*?(?:[\\/]\.{1,2}[\\/]*|[\\/])|\.{1,2}[\\/]*)$'
+    r'^(?s:.*?(?:[\\/]\.{1,2}[\\/]*|[\\/])|\.{1,2}[\\/]*)$',
+    rb'^(?s:.*?(?:[\\/]\.{1,2}[\\/]*|[\\/])|\.{1,2}[\\/]*)$'
 )
 
 
